@@ -29,7 +29,24 @@ def grammar(ref_rule):
     return GRAMMAR_HEAD + ref_rule
 
 
-PLAIN_REF = "Ref: 'ref' refname=RN;\nRN: /[A-Za-z_0-9.\\/:]+/;\n"
+# three kinds of references, each with its own match rule (and so its own `split`)
+KINDS = [("ref", "DRef", "RN"), ("sref", "SRef", "RNS"), ("cref", "CRef", "RNC")]
+REFCLS = {cls: kw for kw, cls, _ in KINDS}
+NAME_RX = "/[A-Za-z_0-9.\\/:\\-]+/"
+
+
+def ref_rules(body, splits):
+    """Ref: DRef | SRef | CRef with body(kw, match_rule) as right-hand side; splits: kw -> split or None."""
+    t = "Ref: DRef | SRef | CRef;\n"
+    for kw, cls, mr in KINDS:
+        t += "%s: '%s' %s;\n" % (cls, kw, body(kw, mr))
+    for kw, cls, mr in KINDS:
+        sp = splits.get(kw)
+        t += "%s%s: %s;\n" % (mr, "[split='%s']" % sp if sp else "", NAME_RX)
+    return t
+
+
+PLAIN_REF = ref_rules(lambda kw, mr: "refname=%s" % mr, {})
 
 _mm_cache = {}
 
@@ -180,29 +197,47 @@ def run_find(case):
 
 
 def run_glue(case):
-    """A reference attribute Ref.ref resolved by an RREL expression: in the grammar
-    ([Item:RN|expr]) or registered as a scope provider string."""
+    """Reference attributes DRef.ref / SRef.ref / CRef.ref (three match rules with their own
+    `split`) resolved by ONE RREL expression: in the grammar ([T:RN|expr], one provider per
+    reference), registered under a wildcard key, under one key per class, or as one provider
+    object registered under several keys.  Optional preload: other models loaded first with the
+    same meta-model (state kept on providers / the meta-model shows up in the main load)."""
     expr = case["expr"]
-    split = case.get("split")
-    rn = "RN%s: /[A-Za-z_0-9.\\/:]+/;\n" % ("[split='%s']" % split if split else "")
-    if case["via"] == "grammar":
-        g = grammar("Ref: 'ref' ref=[%s:RN|%s];\n" % (case["cls"], expr) + rn)
+    splits = case.get("splits") or {}
+    via = case["via"]
+    if via == "grammar":
+        g = grammar(ref_rules(lambda kw, mr: "ref=[%s:%s|%s]" % (case["cls"], mr, expr), splits))
     else:
-        g = grammar("Ref: 'ref' ref=[%s:RN];\n" % case["cls"] + rn)
+        g = grammar(ref_rules(lambda kw, mr: "ref=[%s:%s]" % (case["cls"], mr), splits))
     out = {}
     try:
         out["tree"] = dump_tree(R.parse(expr))
         mm = metamodel_from_str(g)
-        if case["via"] == "register":
-            mm.register_scope_providers({"Ref.ref": expr})
+        if via == "register_wild":
+            mm.register_scope_providers({"*.ref": expr})
+        elif via == "register_each":
+            mm.register_scope_providers({cls + ".ref": expr for _, cls, _ in KINDS})
+        elif via == "register_obj":
+            prov = R.create_rrel_scope_provider(expr)
+            mm.register_scope_providers({cls + ".ref": prov for _, cls, _ in KINDS})
+        elif via != "grammar":
+            return {"r": "ERR:unknown via"}
     except Exception as e:  # noqa
         return {"r": "GRAMMAR-ERR:%s:%s" % (type(e).__name__, str(e)[:200])}
-    # the same text loaded with a plain (non-reference) Ref gives the object graph
+    # the same text loaded with plain (non-reference) Ref rules gives the object graph
     pmm = get_mm(grammar(PLAIN_REF))
     pmodel = pmm.model_from_str(case["model"])
     pobjs = walk(pmodel)
     out["rows"] = dump_model(pobjs, pmm, set())
-    out["refs"] = [{"i": i, "name": o.refname} for i, o in enumerate(pobjs) if o.__class__.__name__ == "Ref"]
+    out["refs"] = [{"i": i, "name": o.refname, "kind": REFCLS[o.__class__.__name__]}
+                   for i, o in enumerate(pobjs) if o.__class__.__name__ in REFCLS]
+    out["preload"] = []
+    for t in case.get("preload", []):
+        try:
+            mm.model_from_str(t)
+            out["preload"].append("OK")
+        except Exception as e:  # noqa
+            out["preload"].append(type(e).__name__)
     try:
         model = mm.model_from_str(case["model"])
     except TextXSemanticError as e:
@@ -213,7 +248,7 @@ def run_glue(case):
         out["err_ref"] = None
         if "Unknown object" in str(e) and e.line == 1:
             for i, po in enumerate(pobjs):
-                if po.__class__.__name__ == "Ref" and po._tx_position <= off < po._tx_position_end:
+                if po.__class__.__name__ in REFCLS and po._tx_position <= off < po._tx_position_end:
                     out["err_ref"] = i
         return out
     except TextXSyntaxError as e:
@@ -227,7 +262,7 @@ def run_glue(case):
     out["r"] = "OK"
     out["resolved"] = []
     for i, o in enumerate(objs):
-        if o.__class__.__name__ == "Ref":
+        if o.__class__.__name__ in REFCLS:
             out["resolved"].append({"i": i, "r": show_result(o.ref, idx),
                                     "name": getattr(o.ref, "name", None)})
     return out
